@@ -16,6 +16,9 @@ def abstract_histories(maxops):
         r = tlc.run("Caches", bad, workers=2)
         if r.ok or "HistoryFree" not in r.stdout:
             raise tlc.MachineryError(f"Caches model not sensitive: {bad} must violate HistoryFree")
+    r = tlc.run("Caches", "MC_Caches_identity.cfg", workers=2)
+    if r.ok or "ResultsIndependentOfInputs" not in r.stdout:
+        raise tlc.MachineryError("Caches model not sensitive: an identity fast path must violate ResultsIndependentOfInputs")
     em = tlc.must(tlc.run("Caches", cfg_text=cfg.replace("Emit = FALSE", "Emit = TRUE")
                           .replace("INVARIANT HistoryFree", "INVARIANT HistoryFree\nINVARIANT EmitHist"), workers=1), "Caches emit")
     hists = [p["hist"] for p in em.printed if isinstance(p, dict) and "hist" in p]
